@@ -11,6 +11,7 @@ import (
 
 	"k8s.io/klog/v2"
 
+	"verif/harness/monitor"
 	"verif/harness/sim"
 	"verif/harness/simapi"
 )
@@ -27,6 +28,7 @@ func main() {
 	failk := flag.String("failkind", "error", "error|timeout|conflict|lost")
 	spec := flag.String("spec", "", "scenario JSON (overrides)")
 	replay := flag.String("replay", "", "replay file: take detail.scenario as the spec")
+	mon := flag.Bool("mon", false, "attach the monitors and print their violations")
 	flag.Parse()
 	if os.Getenv("VERIF_KLOG") == "" {
 		fs := flag.NewFlagSet("k", flag.ContinueOnError)
@@ -93,7 +95,16 @@ func main() {
 		}
 		fmt.Println(sim.Summarize(w))
 	})
+	var ms *monitor.Set
+	if *mon {
+		ms = monitor.Attach(r)
+	}
 	r.Execute()
+	if ms != nil {
+		for _, v := range ms.Finish() {
+			fmt.Println("MONITOR", v.Prop, v.Fingerprint, "@write", v.WriteSeq, v.Msg)
+		}
+	}
 	if *trace {
 		for _, t := range r.Trace {
 			fmt.Println(t)
